@@ -452,3 +452,23 @@ func Decode(b []byte) (tx *transaction.Transaction, err error) {
 	}()
 	return minter.GetExecutor("").DecodeFromBytes(b)
 }
+
+// Guard runs f and converts a panic / exit into a Fault (exported for drivers).
+func Guard(call string, f func()) *Fault { return guard(call, f) }
+
+// GenesisFromExport assembles a genesis state from the node's current export the way
+// cmd/minter/cmd/export.go does (versions, emission and previous reward come from the app DB).
+func (n *Node) GenesisFromExport() (*types.AppState, error) {
+	st, err := n.DiskExport()
+	if err != nil {
+		return nil, err
+	}
+	adb := n.App.VerifAppDB()
+	for _, v := range adb.GetVersions() {
+		st.Versions = append(st.Versions, types.Version{Height: v.Height, Name: v.Name})
+	}
+	st.Emission = adb.Emission().String()
+	t, r0, r1, reward, off := adb.GetPrice()
+	st.PrevReward = types.RewardPrice{Time: uint64(t.UTC().UnixNano()), AmountBIP: r0.String(), AmountUSDT: r1.String(), Off: off, Reward: reward.String()}
+	return &st, nil
+}
